@@ -253,6 +253,59 @@ func omitEmptyTag(t reflect.Type, tag string) bool {
 	return false
 }
 
+func engineRejections(cr *rng.R, fail func(prop string, c map[string]any, detail, sig string), dist map[string]int) {
+	sqldb, err := sql.Open("sqlite3", ":memory:")
+	if err != nil {
+		fatalf("sqlite open: %v", err)
+	}
+	defer sqldb.Close()
+	sqldb.SetMaxOpenConns(1)
+	if _, err := sqldb.Exec("CREATE TABLE u (id INTEGER PRIMARY KEY, name TEXT NOT NULL, score REAL, data BLOB, active BOOLEAN)"); err != nil {
+		fatalf("create table: %v", err)
+	}
+	db := sqlair.NewDB(sqldb)
+	ctx := context.Background()
+	ins := sqlair.MustPrepare("INSERT INTO u (*) VALUES ($SPerson.*) RETURNING &SPerson.*", SPerson{})
+	first := SPerson{ID: 1 + int64(cr.Intn(50)), Name: "first"}
+	var got SPerson
+	if err := db.Query(ctx, ins, first).Get(&got); err != nil || got.ID != first.ID {
+		fail("C17", map[string]any{"scenario": "insert returning", "row": fmt.Sprintf("%+v", first)}, fmt.Sprintf("INSERT ... RETURNING &T.* of a fresh row: %v, returned %+v", err, got), "")
+		return
+	}
+	dup := SPerson{ID: first.ID, Name: "dup"}
+	_, want := sqldb.Exec("INSERT INTO u (id, name) VALUES (?, ?)", dup.ID, dup.Name)
+	if want == nil {
+		fatalf("the engine accepted a duplicate key")
+	}
+	method := cr.Pick([]string{"get", "getall", "iter", "run"})
+	dist["engine-rejection:"+method]++
+	var gerr error
+	q := db.Query(ctx, ins, dup)
+	switch method {
+	case "get":
+		gerr = q.Get(&got)
+	case "getall":
+		var all []SPerson
+		gerr = q.GetAll(&all)
+	case "run":
+		gerr = q.Run()
+	default:
+		it := q.Iter()
+		for it.Next() {
+		}
+		gerr = it.Close()
+	}
+	if gerr == nil || gerr == sqlair.ErrNoRows || !strings.Contains(gerr.Error(), "UNIQUE") {
+		fail("C17", map[string]any{"scenario": "insert returning, duplicate key", "method": method, "row": fmt.Sprintf("%+v", dup)},
+			fmt.Sprintf("the engine rejects the statement (%v through database/sql) but SQLair's %s reported %v", want, method, gerr), "")
+	}
+	var cnt int
+	sqldb.QueryRow("SELECT count(*) FROM u").Scan(&cnt)
+	if cnt != 1 {
+		fail("C17", map[string]any{"scenario": "insert returning, duplicate key", "method": method}, fmt.Sprintf("the table holds %d rows, expected 1", cnt), "")
+	}
+}
+
 func runSQLite(args []string) {
 	fs := flag.NewFlagSet("sqlite", flag.ExitOnError)
 	n := fs.Int("n", 300, "number of generated scenarios")
@@ -278,6 +331,12 @@ func runSQLite(args []string) {
 		rep.addHolds(prop, f)
 	}
 
+	// statements the engine rejects while stepping them (constraint violations of an INSERT
+	// ... RETURNING, which go-sqlite3 only steps on the first Next): every retrieval method
+	// reports the failure, as the hand-written statement through database/sql does
+	for k := 0; k < 6; k++ {
+		engineRejections(r.Fork(), fail, dist)
+	}
 	for i := 0; i < *n; i++ {
 		cr := r.Fork()
 		st := sqliteTypes[cr.Intn(len(sqliteTypes))]
